@@ -127,6 +127,7 @@ func frameAndMessage(c *mon.Ctx, cs gen.Case, id string) {
 		c.Count("frame_ok/"+comp, 1)
 		c.Distinct("frame|" + cs.Sig + "|" + comp)
 	}
+	strayFlags(c, cs, id)
 	// message level: EncodedLength == bytes written by Encode
 	m := bridge.MsgToLib(a.Version, a.Msg, bridge.NewVariant(mon.NewRand(c.Seed, hash(id)^77)))
 	mc := msgCodecs[m.GetOpCode()]
@@ -152,6 +153,61 @@ func frameAndMessage(c *mon.Ctx, cs gen.Case, id string) {
 	c.Distinct("msg|" + cs.Sig)
 	if c.WantSample() && mb.Len() < 120 {
 		c.Sample(map[string]interface{}{"monitor": "message", "id": id, "kind": cs.Kind, "version": a.Version.String(), "EncodedLength": n, "bytes": hex.EncodeToString(mb.Bytes())})
+	}
+}
+
+// strayFlags: header flags are a public field, and nothing stops a caller (or a proxy forwarding a decoded
+// frame) from setting TRACING, CUSTOM_PAYLOAD, WARNING or USE_BETA on a frame whose body has nothing to go with
+// them, or on a request. Whatever the encoder then decides to emit (it may also refuse), the length it declares
+// must be the number of body bytes it writes.
+func strayFlags(c *mon.Ctx, cs gen.Case, id string) {
+	a := cs.Frame
+	hl := a.Version.HeaderLen()
+	r := mon.NewRand(c.Seed, hash(id)^0x5747)
+	all := []primitive.HeaderFlag{primitive.HeaderFlagTracing, primitive.HeaderFlagCustomPayload, primitive.HeaderFlagWarning, primitive.HeaderFlagUseBeta}
+	for round := 0; round < 2; round++ {
+		f := bridge.ToLib(a, false, bridge.NewVariant(mon.NewRand(c.Seed, hash(id)^uint64(0x5748+round))))
+		var added primitive.HeaderFlag
+		for _, fl := range all {
+			if r.Intn(3) == 0 {
+				added |= fl
+			}
+		}
+		if added == 0 {
+			added = all[r.Intn(len(all))]
+		}
+		f.Header.Flags = f.Header.Flags.Add(added)
+		fill := r.Bool()
+		if fill && f.Body != nil {
+			if added.Contains(primitive.HeaderFlagWarning) && f.Body.Warnings == nil {
+				f.Body.Warnings = []string{"stray warning", ""}
+			}
+			if added.Contains(primitive.HeaderFlagCustomPayload) && f.Body.CustomPayload == nil {
+				f.Body.CustomPayload = map[string][]byte{"stray": {1, 2, 3}}
+			}
+			if added.Contains(primitive.HeaderFlagTracing) && f.Body.TracingId == nil {
+				f.Body.TracingId = &primitive.UUID{1, 2, 3, 4, 5, 6, 7, 8, 9, 10, 11, 12, 13, 14, 15, 16}
+			}
+		}
+		var buf bytes.Buffer
+		c.Eval(1)
+		if err := codecs["none"].EncodeFrame(f, &buf); err != nil {
+			c.Count("stray_flags_refused", 1)
+			continue
+		}
+		b := buf.Bytes()
+		var declared int32
+		if len(b) >= hl {
+			declared = int32(binary.BigEndian.Uint32(b[hl-4 : hl]))
+		}
+		if len(b) < hl || int(declared) != len(b)-hl || f.Header.BodyLength != declared {
+			c.Violation(fmt.Sprintf("frame/%s/%s/stray-flags=%#02x/fields-filled=%v/declared-length", dirName(a), cs.Kind, uint8(added), fill),
+				map[string]interface{}{"id": id, "frame": lazyFrame{a}, "added_flags": uint8(added), "fields_filled": fill, "bytes_hex": hexCap(b),
+					"declared_in_header_bytes": declared, "Header.BodyLength_after_encode": f.Header.BodyLength, "body_bytes_emitted": len(b) - hl, "seed": c.Seed})
+			continue
+		}
+		c.Count("stray_flags_ok", 1)
+		c.Distinct(fmt.Sprintf("stray|%s|%#02x|%v", cs.Kind, uint8(added), fill))
 	}
 }
 
